@@ -250,9 +250,39 @@ func Concretize(a J, rep int) cty.Value {
 		panic("bad st")
 	}
 	if mk := asL(a["mk"]); len(mk) > 0 {
-		for _, m := range mk {
-			v = v.Mark(asS(m))
+		v = applyMarks(v, mk, rep+len(jsonKey(a)))
+	}
+	return v
+}
+
+// applyMarks attaches the marks through one of the library's own ways of marking a value; which
+// one is a deterministic function of the abstract value and the representation index, so that
+// every way is used across a run and a replayed event rebuilds the same physical value.
+func applyMarks(v cty.Value, mk []any, variant int) cty.Value {
+	switch variant % 4 {
+	case 1:
+		ms := make([]any, len(mk))
+		for i, m := range mk {
+			ms[i] = asS(m)
 		}
+		return v.WithMarks(cty.NewValueMarks(ms...))
+	case 2:
+		// an already marked receiver takes further marks from marked source values
+		v = v.Mark(asS(mk[0]))
+		srcs := []cty.Value{cty.True.Mark(asS(mk[0]))}
+		for _, m := range mk[1:] {
+			srcs = append(srcs, cty.StringVal("src").Mark(asS(m)))
+		}
+		return v.WithSameMarks(srcs...)
+	case 3:
+		ms := make([]any, len(mk))
+		for i, m := range mk {
+			ms[i] = asS(m)
+		}
+		return v.MarkWithPaths([]cty.PathValueMarks{{Path: cty.Path{}, Marks: cty.NewValueMarks(ms...)}})
+	}
+	for _, m := range mk {
+		v = v.Mark(asS(m))
 	}
 	return v
 }
